@@ -64,6 +64,12 @@ def equivalences():
     def _uf(c):
         return c.u >> pdt.mutate(fk=c.u.a + 0.5, fk0=c.u.a * 1.0, ik=c.u.h + 23)
 
+    for cname, cmp in (("<", lambda p, q: p < q), ("<=", lambda p, q: p <= q), (">=", lambda p, q: p >= q)):
+        # non-equi joins of an integer key with a fractional float key (both written orders), against cross_join + filter
+        add(f"inner_join_vs_cross_filter/int{cname}float(.5)", ("a", "h"),
+            lambda x, c, cmp=cmp: (lambda uf: x >> pdt.inner_join(uf, cmp(x.a, uf.fk - 1)))(_uf(c)), lambda x, c, cmp=cmp: (lambda uf: x >> pdt.cross_join(uf) >> pdt.filter(cmp(x.a, uf.fk - 1)))(_uf(c)))
+        add(f"inner_join_vs_cross_filter/float(.5){cname}int", ("a", "h"),
+            lambda x, c, cmp=cmp: (lambda uf: x >> pdt.inner_join(uf, cmp(uf.fk - 4, x.a - 3)))(_uf(c)), lambda x, c, cmp=cmp: (lambda uf: x >> pdt.cross_join(uf) >> pdt.filter(cmp(uf.fk - 4, x.a - 3)))(_uf(c)))
     for kname, lk, rk in (("int==float(.5)", "a", "fk"), ("int==float(.0)", "a", "fk0"), ("float==int", "b", "ik")):
         for how in ("inner", "left"):
             add(f"{how}_join_vs_cross_filter/{kname}", (lk, "h"),
